@@ -51,7 +51,7 @@ def from_model(tc):
     return c
 
 
-LOOKALIKES = ["", "x", "\r", "\n", "\r\n", "-", "--", "\r\n-", "\r\n--", "\r\n--P", "\r\n--Px", "\r--PQ"[:4], "--PQ", "\r\n--Q", "a\r\n--PXb",
+LOOKALIKES = ["", "x", "\r", "\n", "\r\n", "-", "--", "\r\n-", "\r\n--", "\r\n--P", "\r\n--Px", "\r--PQ"[:4], "\r--PQ", "a\r--PQ\r\nb", "\n--PQ--", "--PQ", "\r\n--Q", "a\r\n--PXb",
               "\r\r\n--P", "x\r", "x\r\n", "\r\n\r\n", "--PQ--", "\n--PQ", "\r\n -PQ", "PQ", "\r\n--pq", "xx\r\n--", "\r\n--\r\n--", "\x00\xff\r"]
 
 
@@ -151,13 +151,14 @@ def run(rep):
     quick = rep.tier == "quick"
     rnd = random.Random(rep.seed * 6151 + 15)
     ar = vlib.Area(rep, AREA, "MpTrace")
-    res = vlib.run_tlc(AREA, "MpScan", "MC_quick.cfg" if quick else "MC_thorough.cfg", rep.workdir, workers=6 if quick else 12,
-                       timeout=900 if quick else 3000, xmx="8g")
-    vlib.tlc_ok(res, "MpScan")
-    rep.add_tlc("MpScan", res, exhaustive=True)
-    if res.distinct < 5000:
-        raise vlib.ToolError("MpScan explored suspiciously little")
-    sc = res.cases
+    sc = []
+    for cfg in (["MC_quick.cfg"] if quick else ["MC_thorough.cfg", "MC_len5.cfg"]):
+        res = vlib.run_tlc(AREA, "MpScan", cfg, rep.workdir, workers=6 if quick else 12, timeout=900 if quick else 3000, xmx="8g")
+        vlib.tlc_ok(res, "MpScan " + cfg)
+        rep.add_tlc("MpScan/" + cfg, res, exhaustive=True)
+        if res.distinct < 5000:
+            raise vlib.ToolError("MpScan explored suspiciously little")
+        sc += res.cases
     rep.cov["scripts_generated"] = len(sc)
     cap = 3000 if quick else 60000
     sc = rnd.sample(sc, cap) if len(sc) > cap else sc
